@@ -2,7 +2,7 @@
    Masks: bit 0 = the model's output differs from the implementation's output; bit 1 = the implementation's output
    violates the specification side (written independently of the fold: maximum for a total key, CSS tables). *)
 From Coq Require Import ZArith QArith Qabs List Bool String.
-Require Import WV.model.C06Cascade WV.model.C06Inherit WV.model.C06Values.
+Require Import WV.model.C06Cascade WV.model.C06Inherit WV.model.C06Values WV.model.C06Imports.
 Import ListNotations.
 
 (* ================================================================== cascade + inheritance through renders *)
@@ -89,6 +89,37 @@ Definition judge_page (c : Z * list (page_sheet Z) * list (Z * Z)) : nat :=
   let st := page_cascade p sheets in
   if forallb (fun no => match cascaded_value st (fst no) with Some v => v =? snd no | None => snd no =? 0 end) obs
   then 0%nat else 1%nat.
+
+(* ---- @import: the sheets are LOADED by the model (flat: the walk of preprocess_stylesheet, one matcher per
+   top-level sheet) from the stylesheet texts and the served files, seen from one element.
+   case = (files, top-level sheets in the order of `sheets`, the element's attribute declarations,
+           [(non-inherited property, observed value id)]) *)
+Definition IFUEL : nat := 400.
+Definition icase := (list (Z * list (item Z)) * list (origin * list (item Z)) * list (spec * list rd) * list (Z * Z))%type.
+Fixpoint spec_load (fs : list (Z * list (item Z))) (l : list (origin * list (item Z))) : option (list (sheet Z)) :=
+  match l with
+  | [] => Some []
+  | (o, items) :: r =>
+      bind (inline IFUEL fs true items) (fun its =>
+      bind (spec_load fs r) (fun t => Some (sheet_of_rules o (text_rules its) :: t)))
+  end.
+Definition judge_imports (c : icase) : nat :=
+  let '(fs, tops, attrs, obs) := c in
+  let model_ok :=
+    match load_sheets IFUEL fs tops with
+    | Some sheets =>
+        let st := element_cascade 0 attrs sheets in
+        forallb (fun nv => match cascaded_value st (fst nv) with Some v => v =? snd nv | None => snd nv =? 0 end) obs
+    | None => false
+    end in
+  let spec_ok :=
+    match spec_load fs tops with
+    | Some sheets =>
+        let ds := all_decls 0 attrs sheets in
+        forallb (fun nv => match key_max (fst nv) ds with Some d => d_val d =? snd nv | None => snd nv =? 0 end) obs
+    | None => false
+    end in
+  ((if model_ok then 0 else 1) + (if spec_ok then 0 else 2))%nat.
 
 (* ================================================================== direct calls *)
 Open Scope Q_scope.
